@@ -367,7 +367,7 @@ def step(j):
             kw["do_uniquify"] = bool(j["u"])
         if j.get("x") is not None:
             kw["do_extrapolate"] = bool(j["x"])
-        if j.get("positional") == 1:
+        if j.get("positional") == "first":
             res = tools.unfold_search(j["s"], bool(j.get("u")))
         elif j.get("positional"):
             res = tools.unfold_search(j["s"], bool(j.get("u")), bool(j.get("x")))
